@@ -46,6 +46,14 @@ def obligations(tier):
                       family="size-limit-guards",
                       desc="sodium_misuse() is reached <=> the requested length exceeds the documented maximum (literal bounds), for all 64-bit lengths; in-range requests reach the cores",
                       bounds="message length (and AEGIS ad length) fully symbolic, 64 bits"))
+    SN = {20: "secretbox-open-easy", 21: "secretbox-xchacha-open-easy", 22: "box-open-easy", 23: "box-open-easy-afternm", 24: "box-xchacha-open-easy",
+          25: "box-seal-open", 26: "box-xchacha-seal-open", 27: "aead-chacha20poly1305-decrypt", 28: "aead-ietf-decrypt", 29: "aead-xchacha-decrypt",
+          30: "aegis128l-decrypt", 31: "aegis256-decrypt", 32: "secretstream-pull"}
+    for w, nm in sorted(SN.items()):
+        obs.append(Ob("short-" + nm, "C12/limits.c", units=LU + ["crypto_box/crypto_box_seal.c", "crypto_box/curve25519xchacha20poly1305/box_seal_curve25519xchacha20poly1305.c"],
+                      stubs=["misuse.c", "rng.c", "libc.c", "x86_builtins.c"], defs={"WHICH": w}, unwind=70, timeout=600, safety=True, family="short-input-guards",
+                      desc="open/decrypt/pull on an input shorter than the documented minimum, held in a heap object of exactly that length: returns -1, no byte of it is read, no core reached, output untouched",
+                      bounds="presented length symbolic over every value below the minimum (16, 32 for AEGIS, 48 for sealed boxes, 17 for secretstream)"))
     # glue-level obligations re-run with every safety check on
     for v in (0, 1, 2):
         for ml, al in ((0, 0), (17, 5), (40, 33)):
